@@ -676,6 +676,16 @@ def build_extra():
     return [C, incoming_set(), multiball_set(), request_queue_set()]
 
 
+def native_histories(C):
+    for demo_, what_ in (("c05_mechanical_eject_phantom_ball.py", "after a mechanical eject from idle the next request is served by a "
+                                                              "source that really has a ball"),
+                         ("c05_weak_plunge_deadlock.py", "a mechanical plunge whose ball comes back leaves the device able to "
+                                                        "eject again"),
+                         ("c05_skipped_ball_phantom.py", "after a ball skipped an idle device the next request is served by a "
+                                                        "source that really has a ball")):
+        C.finite_checks.append(common.native_demo_check(demo_, what_))
+
+
 def request_queue_set():
     """BallDevice._ball_requests: a ball request is either served at once (one eject chain, set up at the first device of
     a path that ends at the target) or stays in the device's queue - it is never dropped - and a queued request is taken
@@ -820,6 +830,7 @@ def request_queue_set():
          bounded="BOUNDED: 0..2 balls requested, 0..2 requests already queued")
     C.fns["BallDevice._setup_or_queue_eject_to_target"].bounded = "BOUNDED: 0..2 requests already queued, paths of 1..3 devices"
     C.fns["BallDevice._source_device_balls_available"].bounded = "BOUNDED: 0..2 requests already queued, paths of 1..3 devices"
+    native_histories(C)
     return C
 
 
